@@ -63,10 +63,37 @@ def configs(tier, seed):
                 c = dict(n=N, k=k, action=action, others=0, ostate="finished", load=load, clock="system", sig=0, cycles=0, victim="main", big=1)
                 c.update(extra2)
                 cfgs.append(c)
+    # a configured ordering grace period: statements logged right before the action are still held back in their queues
+    for k in range(1, N + 1):
+        for action, extra2 in [("stop", {}), ("exit", {}), ("return", {}), ("cycles", {"cycles": 2}), ("signal", {"sig": int(signal.SIGSEGV)}), ("signal", {"sig": int(signal.SIGINT)})]:
+            for grace in (20000, 150000):
+                for others, ostate in [(0, "finished"), (2, "finished")]:
+                    c = dict(n=N, k=k, action=action, others=others, ostate=ostate, load="idle", clock=("tsc" if k % 2 else "system"), sig=0, cycles=0, victim="main" if k % 3 else "thread", grace_us=grace)
+                    if action == "return":
+                        c["victim"] = "main"
+                    c.update(extra2)
+                    cfgs.append(c)
+    # the backend has consumed everything and sits idle (inside the sinks' minimum flush interval) when it is stopped
+    for k in range(1, N + 1):
+        for action, extra2 in [("stop", {}), ("cycles", {"cycles": 2}), ("exit", {}), ("return", {})]:
+            for settle in (5, 30):
+                for others, ostate in [(0, "finished"), (1, "parked")]:
+                    c = dict(n=N, k=k, action=action, others=others, ostate=ostate, load="idle", clock="system", sig=0, cycles=0, victim="main", settle_ms=settle)
+                    c.update(extra2)
+                    cfgs.append(c)
+    # wait_for_queues_to_empty_before_exit off: the signal clause does not depend on it
+    for k in range(1, N + 1):
+        for sig in FATAL + GRACEFUL:
+            for load in ("idle", "busy"):
+                cfgs.append(dict(n=N, k=k, action="signal", others=0, ostate="finished", load=load, clock="system", sig=int(sig), cycles=0,
+                                 victim="main" if k % 2 else "thread", wait_empty=0))
     for c in cfgs:
         c.setdefault("big", 0)
         c.setdefault("prealloc", 0)
         c.setdefault("second_fault_ms", 0)
+        c.setdefault("grace_us", 0)
+        c.setdefault("wait_empty", 1)
+        c.setdefault("settle_ms", 0)
     return cfgs
 
 
@@ -124,6 +151,15 @@ def judge(c, rc, timed_out, d):
             return "termination-notice-missing", {"victim_log": vlines[-6:]}
         if vlines and head != vs:
             return "signal-notice-before-earlier-statements", {"victim_log": vlines[-10:]}
+    # ---- the moment stop() returned (first stop): the victim's statements so far were already readable from the file
+    if c["action"] in ("stop", "cycles"):
+        snap = read_lines(os.path.join(d, "victim.at_stop.0"))
+        if snap is None:
+            return "child-took-no-snapshot-at-stop", {}
+        ss = ["|".join(l.split("|")[:2]) for l in snap if l.startswith("V|")]
+        want_at_stop = ["V|%d" % i for i in range(k)]
+        if ss != want_at_stop:
+            return "completed-statement-not-in-file-when-stop-returned:" + c["action"], {"at_stop": ss[-8:], "expected_count": len(want_at_stop), "got_count": len(ss)}
     # ---- backlog on the slow sink (logged by the victim before its own statements)
     if c["load"] == "busy":
         sl = [l for l in (read_lines(os.path.join(d, "slow.log")) or []) if l.startswith("S|")]
@@ -147,7 +183,7 @@ def judge(c, rc, timed_out, d):
 def run_child(exe, c, d):
     os.makedirs(d, exist_ok=True)
     args = [exe, "--dir", d]
-    for k in ("n", "k", "action", "others", "ostate", "load", "clock", "sig", "cycles", "victim", "big", "prealloc", "second_fault_ms"):
+    for k in ("n", "k", "action", "others", "ostate", "load", "clock", "sig", "cycles", "victim", "big", "prealloc", "second_fault_ms", "grace_us", "wait_empty", "settle_ms"):
         args += ["--" + k, str(c[k])]
 
     def pre():
@@ -192,7 +228,7 @@ def run(tier, seed):
         b = col.builds.setdefault(variant, {"processes": 0, "sanitizer_or_crash_reports": 0})
         b["processes"] += 1
         if reached:
-            tuples.add((c["action"], c["k"], c["sig"], c["clock"], c["load"], c["others"], c["ostate"], c["victim"], c["cycles"], c["n"], c["big"], c["prealloc"], c["second_fault_ms"]))
+            tuples.add((c["action"], c["k"], c["sig"], c["clock"], c["load"], c["others"], c["ostate"], c["victim"], c["cycles"], c["n"], c["big"], c["prealloc"], c["second_fault_ms"], c["grace_us"], c["wait_empty"], c["settle_ms"]))
             statements += (c["k"] if c["action"] != "cycles" else c["n"]) + (150 if c["load"] == "busy" else 0)
         if key:
             w = dict(wit)
@@ -207,7 +243,9 @@ def run(tier, seed):
                 "ENUMERATED for N=6: every k in [0,6] x {stop without flush, std::exit, return from main, 1 and 3 stop/start cycles} x other threads "
                 "{none, finished, parked, alive-and-logging} x backend {idle, busy with a 150-statement backlog on a slow sink}; every k in [1,6] x "
                 "{SEGV, ABRT, FPE, ILL, INT, TERM} x victim {main, other thread} x other threads x load. SAMPLED: N up to 24, Tsc clock, up to 4 other "
-                "threads, up to 5 cycles. Parent oracle after waitpid: statements whose log call returned before the action ticket are in their file once "
+                "threads, up to 5 cycles. Further enumerations for N=6: victim registered first, second faulting thread, 200 KB last statement, ordering grace period of 20 / 150 ms, "
+                "5 / 30 ms settle time before the action (idle backend inside the flush interval), wait_for_queues_to_empty_before_exit off x every signal. For "
+                "stop the victim's file is also copied the moment stop() returned and judged (flushed before the backend thread terminates). Parent oracle after waitpid: statements whose log call returned before the action ticket are in their file once "
                 "and in order (victim, backlog, other threads), later statements arrive after restarts, signal notices follow the victim's statements, "
                 "exit status 0 / death by the original signal. distinct+non-trivial = distinct (action,k,signal,clock,load,threads,state,victim,cycles,N) "
                 "tuples whose child reached point k",
